@@ -41,6 +41,9 @@ type Obligation struct {
 	Desc      string
 	Props     []string
 	MustSat   bool // cover obligations: expected sat
+	Using     []string
+	UsingFacts []string
+	SinceLine int // sliced context additionally keeps every prefix line from this index on (-1: none)
 	// results
 	Status  string // proved, failed, unknown, error
 	Solver  string
@@ -109,6 +112,30 @@ type Gen struct {
 	uses         map[string]bool
 	notes        []string
 	ghost0       map[string]string
+	pointCount   map[ssa.Instruction]int
+	facts        map[string]string // labelled ghost assertions (guarded formulas)
+	boolDef      map[int]bool      // prefix lines kept in sliced contexts: definitions and type-range facts
+	marks        map[string]int    // named positions in the prefix
+}
+
+func (g *Gen) keepLine() {
+	if g.boolDef == nil {
+		g.boolDef = map[int]bool{}
+	}
+	g.boolDef[len(g.lines)] = true
+}
+
+// assumeRange emits a type-range fact (kept in sliced contexts).
+func (g *Gen) assumeRange(t string, guarded bool) {
+	if t == "true" || t == "" {
+		return
+	}
+	g.keepLine()
+	if guarded {
+		g.emit(fmt.Sprintf("(assert (=> %s %s))", g.reach, t))
+	} else {
+		g.emit("(assert " + t + ")")
+	}
 }
 
 func (g *Gen) use(k string) {
@@ -136,6 +163,7 @@ func (g *Gen) declare(name, sort string) { g.emit(fmt.Sprintf("(declare-const %s
 func (g *Gen) def(prefix, sort, term string) string {
 	n := g.fresh(prefix)
 	g.emit(fmt.Sprintf("(declare-const %s %s)", n, sort))
+	g.keepLine()
 	g.emit(fmt.Sprintf("(assert (= %s %s))", n, term))
 	return n
 }
@@ -477,7 +505,7 @@ func (g *Gen) havocVal(t types.Type, hint string) *Val {
 	for i, c := range cs {
 		terms[i] = g.freshConst(hint, c.Sort)
 	}
-	g.assumeAlways(g.cellRanges(t, terms))
+	g.assumeRange(g.cellRanges(t, terms), false)
 	return g.valFromCells(t, terms)
 }
 
@@ -505,6 +533,7 @@ func (g *Gen) run() {
 	}
 	g.nextobj0 = "nextobj0"
 	g.declare("nextobj0", "Int")
+	g.keepLine()
 	g.assumeRaw(fmt.Sprintf("(> nextobj0 %d)", g.eng.maxGlobalID()))
 	g.nextobj = g.nextobj0
 	g.reach = "true"
@@ -515,6 +544,7 @@ func (g *Gen) run() {
 		pv := g.havocVal(v.Type(), "p_"+name)
 		g.vals[v] = pv
 		g.params[name] = pv
+		g.keepLine()
 		g.assumeRaw(g.wellFormed(pv, g.nextobj0, g.ct.Nilable[name]))
 		ptrParams = append(ptrParams, pv)
 	}
@@ -524,6 +554,7 @@ func (g *Gen) run() {
 	for _, fv := range fn.FreeVars {
 		bind(fv.Name(), fv)
 	}
+	g.keepLine()
 	g.assumeRaw(g.typedDisjointness(ptrParams))
 	g.initGlobals()
 	g.initGhost()
@@ -537,9 +568,12 @@ func (g *Gen) run() {
 			env.vars[l.Name] = v
 		}
 	}
+	g.facts = map[string]string{}
+	g.marks = map[string]int{"entry": 0}
 	for _, c := range g.ct.Requires {
 		t := g.specBool(env, c.E)
 		g.assumeRaw(t)
+		g.facts[c.Name] = t
 	}
 	// vacuity: the precondition must be satisfiable
 	cov := g.obligeNamed(g.unit+"#cover.pre", "cover", "false", fn.Pos(), "precondition is satisfiable", nil)
@@ -554,6 +588,11 @@ func (g *Gen) run() {
 	order := g.blockOrder()
 	for _, b := range order {
 		g.walkBlock(b)
+	}
+	for _, as := range g.ct.Ats {
+		if !as.Used {
+			g.bindFail(fmt.Sprintf("ghost statement at %s %s %d: program point not found", as.PointKind, as.Callee, as.Ordinal))
+		}
 	}
 }
 
